@@ -1,6 +1,21 @@
 # Human-written level texts per claimed property (used by tools/gen_manifest.py).
 HOOK_COMMITS = []
 META = {
+    "C06": {
+        "text": "Bounded model checking of the real kvIndex.UpdateIndex / All / Get (through a store built by the real InitBaseStore): for every listing of N put/delete operations with symbolic keys and values and every earlier index state, the solver shows All() and Get(k) equal the last-writer-wins replay.",
+        "design_ref": "DESIGN.md §2 C06",
+        "note": "Trusted: gosym SSA semantics (native replay of sampled paths per run), z3, idealised JSON codec. Bounds: N<=3 quick / 4 thorough, 1-byte keys, 0..1-byte values.",
+    },
+    "C07": {
+        "text": "Bounded model checking of the real documentIndex.UpdateIndex, Get, Query and Delete: every listing of N operations incl. batch puts over symbolic keys, every Get option combination with a symbolic search key, a family of Query predicates; the oracle is a reference replay written in the harness.",
+        "design_ref": "DESIGN.md §2 C07",
+        "note": "Trusted: gosym, z3, idealised JSON, ASCII-exact ToLower stand-in. Bounds: N<=2/3 ops, M<=2/3 documents, keys <=1/2 bytes printable ASCII without space.",
+    },
+    "C08": {
+        "text": "Bounded model checking of the real query/read window code with the amount a full 64-bit symbolic integer and every bound kind/position: the solver shows the returned slice is exactly the specified contiguous window and the listing is not disturbed.",
+        "design_ref": "DESIGN.md §2 C08",
+        "note": "Trusted: gosym, z3. Bounds: listing length N<=4 quick / 6 thorough. The order-stability clause over merge histories is decided by the C01 harnesses (real ipfs-log), see DESIGN.",
+    },
     "C19": {
         "text": "Bounded model checking of the real update functions: one inductive step from an ARBITRARY valid pre-state (progress, max, log length, argument all 64-bit symbolic) — the solver shows max'>=max, progress'>=progress, progress'<=max' and the at-rest equality for every value below 2^62, which covers histories of any length because the invariant is inductive.",
         "design_ref": "DESIGN.md §2 C19",
